@@ -1110,4 +1110,7 @@ pub struct MPMCFutSender<T> {""")]),
     V('rf-mask-written-differently', None, [], [E('src/countedindex.rs', """            val: AtomicUsize::new(val),
             mask: (wrap - 1) as usize,""", """            val: AtomicUsize::new(val),
             mask: wrap as usize - 1,""")], kind='refactor'),
+
+    V('poll-park-no-prod-notify', 'C14', ['P11h'], [E(MQ, """                        self.prod_wait.notify_all();
+                        return Ok(Async::NotReady);""", """                        return Ok(Async::NotReady);""")]),
 ]
